@@ -615,6 +615,9 @@ def real_c02(cfg, beh, real):
         elif e["k"] == "cease":
             sweeps.setdefault(so.get(e["d"]), []).append(e["d"])
     flush()
+    left = [d for d in entered if d not in pos]
+    if left:
+        probs.append("doers %s were entered but not exited when the run returned / raised" % sorted(left))
     return probs, known
 
 
